@@ -45,7 +45,7 @@ fn one(program_seed: u64, schedule_seed: u64, cause: &str, k: u64) -> Outcome {
         return Outcome { lines, items, victim_ops: 0, triggered: true, flagged: false };
     }
     let tokens = Rc::new(Cell::new(0u32));
-    let (_n, slots) = bus_driver::program::spawn_program(&mut bus, &mut prng, "all", &tokens);
+    let (_n, slots) = bus_driver::program::spawn_program(&mut bus, &mut prng, "calls,events,channels,chaos", &tokens);
     let fault: Rc<Slot<bool>> = Slot::new();
     let ctx = bus_driver::program::mk_ctx(&bus, victim, format!("c{victim}.battery"), &mut prng, &tokens);
     bus.spawn_app(ctx.name.clone(), roles::battery(ctx, slots.first().cloned(), fault.clone()));
